@@ -193,6 +193,7 @@ func c14Alphabet(r *gen.Rand, v *spec.Version) []string {
 			srcs = append(srcs, v.Canonical(cs[0]))
 		}
 		for _, src := range srcs {
+			add(src) // the fully populated vector itself (its object joins the shared read-only objects)
 			_, el := gen.SplitElems(v, src)
 			if len(el) == 0 {
 				continue
@@ -807,6 +808,39 @@ func c14Poison(st *c14State, inputs []c14Input) {
 	st.events.Add(n)
 	st.res.Counters["poisoned_errors"] = n
 	st.res.Counters["poisoned_fields"] = fields
+}
+
+// c14Purity: only Set may change its receiver. Every packed-corner, literal-guided and explicit-copy object of every
+// version is parsed, cloned, observed through EVERY read-only method (Vector, all scores, Nomenclature, every Get)
+// and must afterwards still be == its clone and give the same observations a second time.
+func c14Purity(st *c14State) {
+	var n int64
+	for _, api := range probe.APIs {
+		v := api.Ver
+		list := cornerAssigns(api)
+		for i, a := range list {
+			if i > 20000 {
+				break
+			}
+			s := v.Canonical(a)
+			o, err, p := api.SafeParse(s)
+			if err != nil || o == nil || p != nil {
+				continue
+			}
+			before := o.Clone()
+			sig1 := sigObj(api, o)
+			n++
+			if !o.Equal(before) {
+				st.mismatch(Violation{Kind: "read-only-method-changed-receiver", Version: v.Name, Steps: append(parseSteps(s), Step{Op: "vector"}, Step{Op: "score"}), Expected: "object still == " + before.Bytes() + " after Vector / scores / Nomenclature / Get", Observed: o.Bytes(), Detail: map[string]any{"workload": "purity"}})
+				continue
+			}
+			if sig2 := sigObj(api, o); sig2 != sig1 {
+				st.mismatch(Violation{Kind: "result-depends-on-receiver-history", Version: v.Name, Steps: append(parseSteps(s), Step{Op: "score"}, Step{Op: "score"}), Expected: sig1, Observed: sig2, Detail: map[string]any{"workload": "purity"}})
+			}
+		}
+	}
+	st.events.Add(n)
+	st.res.Counters["purity_objects"] = n
 }
 
 // c14Periods: counter wrap-arounds. State that is "cleared" by bumping a generation counter instead of being
@@ -1616,6 +1650,9 @@ func C14Child(mode, tier string, seed int64) {
 	}
 	c14Poison(st, inputs)
 	if mode == "plain" || mode == "asan" {
+		c14Purity(st)
+	}
+	if mode == "plain" || mode == "asan" {
 		c14Periods(st)
 		if quick {
 			c14Siblings(st, 3, 1)
@@ -1939,7 +1976,7 @@ func CheckC14(c *Ctx) {
 		totalEvents += res.Events + coldEvents
 		distinct += res.ContextPairs
 		summary[b.mode] = map[string]any{"events": res.Events, "distinct_keys": res.Keys, "keys_seen_by_2plus_goroutines": res.KeysMulti, "distinct_(previous,current)_context_pairs": res.ContextPairs,
-			"yields_taken": res.Yields, "sibling_singles": res.Counters["sibling_singles"], "aliased_input_calls": res.Counters["aliased_input_calls"], "period_probe_calls": res.Counters["period_probe_calls"], "poisoned_errors": res.Counters["poisoned_errors"], "poisoned_error_fields": res.Counters["poisoned_fields"], "sibling_pairs": res.Counters["sibling_pairs"], "sibling_triples": res.Counters["sibling_triples"], "hammer_calls": res.Counters["hammer_calls"], "hammer_phases": res.Counters["hammer_phases"], "hammer_pair_calls": res.Counters["hammer_pair_calls"], "hammer_pair_phases": res.Counters["hammer_pair_phases"], "strings_reverified": res.StringsRecheck, "sequences": res.Sequences, "pool_reuse_sequences_v2": res.PoolReuse, "race_report_blocks": raw, "race_reports_deduplicated": len(dedup),
+			"yields_taken": res.Yields, "sibling_singles": res.Counters["sibling_singles"], "aliased_input_calls": res.Counters["aliased_input_calls"], "period_probe_calls": res.Counters["period_probe_calls"], "poisoned_errors": res.Counters["poisoned_errors"], "purity_objects": res.Counters["purity_objects"], "poisoned_error_fields": res.Counters["poisoned_fields"], "sibling_pairs": res.Counters["sibling_pairs"], "sibling_triples": res.Counters["sibling_triples"], "hammer_calls": res.Counters["hammer_calls"], "hammer_phases": res.Counters["hammer_phases"], "hammer_pair_calls": res.Counters["hammer_pair_calls"], "hammer_pair_phases": res.Counters["hammer_pair_phases"], "strings_reverified": res.StringsRecheck, "sequences": res.Sequences, "pool_reuse_sequences_v2": res.PoolReuse, "race_report_blocks": raw, "race_reports_deduplicated": len(dedup),
 			"configurations": res.Configs, "wall_s": time.Since(t0).Seconds(), "inputs": res.Counters["inputs"], "fresh_process_baselines": res.Counters["fresh_process_baselines"],
 			"cold_start_processes": coldProcs, "cold_start_first_use_calls": coldEvents}
 		if b.mode == "race-instr" {
@@ -1986,7 +2023,7 @@ func CheckC14(c *Ctx) {
 		c.Extra["yield_points_inserted"] = s
 	}
 	c.SetReport(Report{
-		Rule:        "four builds of the CURRENT tree (plain; -race; -race after the AST yield-point pass that inserts seeded Gosched/sleep calls at loop heads and after call statements of go-cvss; -asan in thorough). In each: (1) baselines of ~40 inputs per version computed after forced double GC in forward and reverse order (must agree with each other, with the grammar/canonical-form oracles and -- plain build -- with the same call made as the first call of a fresh process; likewise every optional metric as the sole optional metric of a vector, each value, each in its own fresh process); (2) sequential histories hostile to pooled scratch buffers under GOMAXPROCS(1)+GC off: ALL ordered pairs per version, all triples for v2 (1/7 for others), random sequences of 2-50 calls across versions -- every result must equal its baseline; (3) goroutines {4,8,16,64} x GOMAXPROCS {1,2,16} hammering the small shared input set, plus a hot-keys phase per repetition over only 2-4 inputs (parse, everything observable of shared read-only objects, Set on local copies, parse-mutate-parse, Rating) with results compared to baselines; (0) cold concurrent starts: short-lived processes in which NO go-cvss call has happened yet release 8-24 goroutines together, round by round, on the same parse + score + Vector + Nomenclature + Get of every metric + Rating (all three rating-capable versions) calls (550 first-use rounds each), judged against the spec oracles; (3b) hammer phases: G goroutines calling ONE method on the same 4 objects in a tight loop with nothing of the harness in between (one phase per scoring method, Vector and ParseVector, per version and repetition; G x GOMAXPROCS in {16x16, 8x4, 4x2, 32x16, 3x3}, plus crowd phases with 256 and 1,024 goroutines on 16 Ps), each result compared with the quiescent value; pair phases: half of the goroutines call method A, the other half a different method B (scores, Vector, ParseVector of valid and of rejected input, Set+Get on a private copy; same or another CVSS version), 24 seeded pairs per repetition; (2b) sibling histories (plain, asan): for 3 (thorough 12) background objects per version EVERY object differing from it in exactly one or exactly two metrics (one background, thorough 3: also exactly three), in the histories unrelated,A / A,B / B,A -- results must equal the reference after the unrelated call; (2d) period probes (plain, asan): a vector with every optional metric defined, d-1 calls on a base-only vector, the first vector again, for d in {255,256,257,65535,65536,65537} on one P with GC off -- every result must equal its reference (generation counters that wrap); (2e) poisoned errors: every rejected input is parsed, the exported fields of the returned error are overwritten by the caller (reflection) and the input is parsed again, likewise Get/Set on unknown abbreviations -- the second result must equal the baseline; (2c) aliased inputs (all builds but the yield pass): all ordered pairs per version with both inputs written into ONE reused buffer and passed as views of it, and as fresh heap copies dropped at once with a GC every 8 calls -- results must equal the baselines; (4) every Vector() string kept next to an immediate clone and re-compared later, forced GC every 10k events; (5) elapsed time: one plain-build process goes idle and wakes at process ages 0.5/1.5/3.5/7.5/15.5/47 s (thorough: also 110/300/910 s), each time making every alphabet call in a rotated order, re-reading the objects parsed at the start and re-setting every metric of clones to its own value -- all must equal the baselines (time is the stimulus, equality the verdict). Race reports are counted from the GORACE log (never from the exit code) and de-duplicated by first-frame pair. evaluations = events; distinct = distinct (previous call, current call) context pairs summed over builds",
+		Rule:        "four builds of the CURRENT tree (plain; -race; -race after the AST yield-point pass that inserts seeded Gosched/sleep calls at loop heads and after call statements of go-cvss; -asan in thorough). In each: (1) baselines of ~40 inputs per version computed after forced double GC in forward and reverse order (must agree with each other, with the grammar/canonical-form oracles and -- plain build -- with the same call made as the first call of a fresh process; likewise every optional metric as the sole optional metric of a vector, each value, each in its own fresh process); (2) sequential histories hostile to pooled scratch buffers under GOMAXPROCS(1)+GC off: ALL ordered pairs per version, all triples for v2 (1/7 for others), random sequences of 2-50 calls across versions -- every result must equal its baseline; (3) goroutines {4,8,16,64} x GOMAXPROCS {1,2,16} hammering the small shared input set, plus a hot-keys phase per repetition over only 2-4 inputs (parse, everything observable of shared read-only objects, Set on local copies, parse-mutate-parse, Rating) with results compared to baselines; (0) cold concurrent starts: short-lived processes in which NO go-cvss call has happened yet release 8-24 goroutines together, round by round, on the same parse + score + Vector + Nomenclature + Get of every metric + Rating (all three rating-capable versions) calls (550 first-use rounds each), judged against the spec oracles; (3b) hammer phases: G goroutines calling ONE method on the same 4 objects in a tight loop with nothing of the harness in between (one phase per scoring method, Vector and ParseVector, per version and repetition; G x GOMAXPROCS in {16x16, 8x4, 4x2, 32x16, 3x3}, plus crowd phases with 256 and 1,024 goroutines on 16 Ps), each result compared with the quiescent value; pair phases: half of the goroutines call method A, the other half a different method B (scores, Vector, ParseVector of valid and of rejected input, Set+Get on a private copy; same or another CVSS version), 24 seeded pairs per repetition; (2b) sibling histories (plain, asan): for 3 (thorough 12) background objects per version EVERY object differing from it in exactly one or exactly two metrics (one background, thorough 3: also exactly three), in the histories unrelated,A / A,B / B,A -- results must equal the reference after the unrelated call; (2d) period probes (plain, asan): a vector with every optional metric defined, d-1 calls on a base-only vector, the first vector again, for d in {255,256,257,65535,65536,65537} on one P with GC off -- every result must equal its reference (generation counters that wrap); (2f) purity (plain, asan): every packed-corner and literal-guided object is parsed, cloned, observed through every read-only method and must still be == its clone and give the same observations again; (2e) poisoned errors: every rejected input is parsed, the exported fields of the returned error are overwritten by the caller (reflection) and the input is parsed again, likewise Get/Set on unknown abbreviations -- the second result must equal the baseline; (2c) aliased inputs (all builds but the yield pass): all ordered pairs per version with both inputs written into ONE reused buffer and passed as views of it, and as fresh heap copies dropped at once with a GC every 8 calls -- results must equal the baselines; (4) every Vector() string kept next to an immediate clone and re-compared later, forced GC every 10k events; (5) elapsed time: one plain-build process goes idle and wakes at process ages 0.5/1.5/3.5/7.5/15.5/47 s (thorough: also 110/300/910 s), each time making every alphabet call in a rotated order, re-reading the objects parsed at the start and re-setting every metric of clones to its own value -- all must equal the baselines (time is the stimulus, equality the verdict). Race reports are counted from the GORACE log (never from the exit code) and de-duplicated by first-frame pair. evaluations = events; distinct = distinct (previous call, current call) context pairs summed over builds",
 		DistinctN:   distinct,
 		Assumptions: []string{"the race detector sees only executed pairs of accesses; interleavings are explored, not enumerated", "dependence on elapsed time is observed only up to the idle gaps lived through (31.5 s quick, 10 min thorough); dependence on the environment (variables, files, clock date) is not driven", "in the plain build every baseline is also recomputed as the first call of a freshly started process; the sanitizer builds rely on the double-GC baseline"},
 	})
